@@ -524,7 +524,8 @@ def dt_us(x):
         return x.us
     if isinstance(x, datetime):
         if x.tzinfo is None:
-            raise Unsupported("naive datetime mixed with symbolic datetime")
+            d = x - EPOCH.replace(tzinfo=None)  # naive: the wall clock reading
+            return (d.days * 86400 + d.seconds) * 1000000 + d.microseconds
         d = x - EPOCH
         return (d.days * 86400 + d.seconds) * 1000000 + d.microseconds
     raise TypeError("not a datetime: %r" % type(x))
@@ -750,13 +751,19 @@ class SDatetime(datetime):
     """Aware datetime: us = microseconds since the epoch (instant), off = UTC
     offset in minutes.  ``aligned``: us is a multiple of 1000 by construction."""
 
-    def __new__(cls, us, off=0, aligned=False, parts=None):
+    def __new__(cls, us, off=0, aligned=False, parts=None, naive=False):
         o = datetime.__new__(cls, 2000, 1, 1, tzinfo=timezone.utc)
-        o.us = us
+        o.us = us  # aware: microseconds since the epoch (instant); naive: the wall clock reading in microseconds
         o.off = off
         o.aligned = aligned
         o.parts = parts  # optional (concrete epoch second, microsecond term): enables character-level isoformat()
+        o.naive = naive
         return o
+
+    def _same_kind(self, o):
+        on = o.naive if isinstance(o, SDatetime) else (o.tzinfo is None)
+        if on != self.naive:
+            raise TypeError("can't compare or subtract offset-naive and offset-aware datetimes")
 
     # arithmetic ---------------------------------------------------------
     def __add__(self, o):
@@ -768,6 +775,7 @@ class SDatetime(datetime):
 
     def __sub__(self, o):
         if isinstance(o, datetime):
+            self._same_kind(o)
             return mktd(self.us - dt_us(o), self.aligned and _al(o))
         if not isinstance(o, timedelta):
             return NotImplemented
@@ -781,6 +789,7 @@ class SDatetime(datetime):
     def _cmp(self, o, op):
         if not isinstance(o, datetime):
             return NotImplemented
+        self._same_kind(o)
         return mkbool(op(self.us, dt_us(o)))
 
     def __lt__(self, o):
@@ -797,6 +806,8 @@ class SDatetime(datetime):
 
     def __eq__(self, o):
         if not isinstance(o, datetime):
+            return False
+        if (o.naive if isinstance(o, SDatetime) else (o.tzinfo is None)) != self.naive:
             return False
         return mkbool(self.us == dt_us(o))
 
@@ -819,6 +830,8 @@ class SDatetime(datetime):
 
     @property
     def tzinfo(self):
+        if self.naive:
+            return None
         if isinstance(self.off, int):
             return timezone(timedelta(minutes=self.off)) if self.off else timezone.utc
         return STz(self.off)
@@ -852,13 +865,21 @@ class SDatetime(datetime):
                 r = SDatetime(self.us - self.us % 1000000 + m, self.off, al, pt)
         if tzinfo is not True:
             if tzinfo is None:
-                raise Unsupported("replace(tzinfo=None)")
+                # drop the zone: the naive value keeps the wall clock reading
+                if r.naive:
+                    return r
+                return SDatetime(r.us + r.off * 60000000, 0, r.aligned, None, naive=True)
+            if r.naive:
+                noff = tz_off(tzinfo)
+                return SDatetime(r.us - noff * 60000000, noff, r.aligned)
             # same wall clock, new offset: instant shifts by the offset difference
             noff = tz_off(tzinfo)
             r = SDatetime(r.us + (r.off - noff) * 60000000, noff, r.aligned)
         return r
 
     def astimezone(self, tz=None):
+        if self.naive:
+            raise Unsupported("astimezone() of a naive datetime (system local time)")
         noff = tz_off(tz)
         return SDatetime(self.us, noff, self.aligned, self.parts)
 
@@ -979,8 +1000,9 @@ class SymDatetimeClass:
     """stands for the name ``datetime`` rebound in a module under test:
     fromtimestamp on exact ratios, now() from a symbolic clock."""
 
-    def __init__(self, clock=None):
+    def __init__(self, clock=None, local_off=0):
         self.clock = clock
+        self.local_off = local_off  # minutes east of UTC of the process's local time (int or z3 Int)
 
     def __call__(self, *a, **k):
         return datetime(*a, **k)
@@ -1006,7 +1028,21 @@ class SymDatetimeClass:
     def now(self, tz=None):
         if self.clock is None:
             return datetime.now(tz)
-        return self.clock(tz)
+        inst = self.clock(tz)  # an aware instant
+        if tz is None:
+            # datetime.now() is naive local time
+            if isinstance(inst, SDatetime) or is_z3(self.local_off):
+                return SDatetime(dt_us(inst) + self.local_off * 60000000, 0, False, None, naive=True)
+            return (inst.astimezone(timezone.utc) + timedelta(minutes=self.local_off)).replace(tzinfo=None)
+        if isinstance(inst, SDatetime):
+            return inst.astimezone(tz)
+        return inst.astimezone(tz)
+
+    def utcnow(self):
+        inst = self.clock(None)
+        if isinstance(inst, SDatetime):
+            return SDatetime(dt_us(inst), 0, False, None, naive=True)
+        return inst.astimezone(timezone.utc).replace(tzinfo=None)
 
     def __getattr__(self, name):
         return getattr(datetime, name)
